@@ -253,7 +253,9 @@ def run(ctx):
             sim.spline_params(rng, min(tr.level), max(tr.level)),
             # specific yield going negative inside the range of the recession curve itself
             sim.spline_params(rng, min(rec_levels), max(rec_levels) + 1.0, n_sy=rng.randint(6, 9), oscillating=True),
-            sim.peatclsm_params(rng, max(tr.level))))
+            sim.peatclsm_params(rng, max(tr.level)),
+            # each section of the parameter file has its own type
+            sim.mixed_params(rng, min(tr.level), max(tr.level))))
         # a finely resolved profile: tens to more than a hundred knots (parameter numbers of two and three digits)
         many = sim.spline_params(rng, min(tr.level), max(tr.level), n_sy=rng.choice([10, 12, 37, 101, 120]), n_t=rng.choice([10, 11, 25]))
         # a file the tool accepts: one more level knot than values (knots and values are paired, the unpaired knot is ignored);
